@@ -51,6 +51,15 @@ type c12Cfg struct {
 	clients        int
 	maxProposals   int
 	base           c12Faults
+	// apply-pipeline shaping
+	maxApplying     int // RaftOptions.MaxApplyingTasks (0 = default 1024)
+	stallNode       int // node index whose state machine occasionally stalls 20-50ms
+	stallPct        int
+	maxSizePerMsg   uint64
+	maxInflight     int
+	maxQueuedReq    int
+	maxQueuedCtl    int
+	writeBatchItems int
 }
 
 type c12Event struct {
@@ -116,18 +125,32 @@ func c12GenCase(rng *rand.Rand, thorough bool) (c12Cfg, []c12Event) {
 		cfg.maxProposals = 1500
 	}
 	cfg.base = c12GenFaults(rng)
+	// Apply backpressure: in ~2/3 of the cases the per-slot apply pipeline is
+	// tiny, so that slow applies push the ready loop onto its synchronous
+	// fallback (processReadyAsyncNormal -> ErrSlotBusy -> processReadySynchronously).
+	if rng.IntN(3) != 0 {
+		cfg.maxApplying = []int{1, 1, 2, 2, 4, 16}[rng.IntN(6)]
+		cfg.smDelayPct = 25 + rng.IntN(50)
+	}
+	cfg.stallNode = rng.IntN(cfg.nodes)
+	cfg.stallPct = rng.IntN(4)
+	cfg.maxSizePerMsg = []uint64{0, 0, 128, 1024, 16 << 10}[rng.IntN(5)]
+	cfg.maxInflight = []int{0, 0, 1, 4, 32}[rng.IntN(5)]
+	cfg.maxQueuedReq = []int{0, 0, 32, 256}[rng.IntN(4)]
+	cfg.maxQueuedCtl = []int{0, 0, 8, 64}[rng.IntN(4)]
+	cfg.writeBatchItems = []int{0, 0, 1, 8}[rng.IntN(4)]
 
 	steps := 9 + rng.IntN(4)
 	if thorough {
 		steps = 11 + rng.IntN(8)
 	}
-	kinds := []string{"part", "oneway", "iso-leader", "iso-leader", "heal", "transfer", "transfer", "compact", "compact", "crash", "crash", "faults", "burst"}
+	kinds := []string{"part", "oneway", "iso-leader", "iso-leader", "heal", "transfer", "transfer", "compact", "compact", "crash", "crash", "faults", "burst", "apply-gate", "apply-gate"}
 	evs := make([]c12Event, steps)
 	for i := range evs {
 		evs[i].kind = kinds[rng.IntN(len(kinds))]
 	}
 	// every schedule contains the ingredients of a non-trivial case
-	must := []string{"crash", "iso-leader", "compact", "transfer", "heal"}
+	must := []string{"crash", "iso-leader", "compact", "transfer", "heal", "apply-gate"}
 	perm := rng.Perm(steps)
 	for i, k := range must {
 		evs[perm[i]].kind = k
@@ -162,7 +185,8 @@ func (c c12Cfg) String() string {
 	if c.smDurable {
 		sm = "durable"
 	}
-	return fmt.Sprintf("n%d s%d %s sm=%s pv=%v cq=%v tick=%v el=%d hb=%d w=%d trig=%d", c.nodes, c.slots, mode, sm, c.preVote, c.checkQuorum, c.tick, c.election, c.heartbeat, c.workers, c.trigger)
+	return fmt.Sprintf("n%d s%d %s sm=%s pv=%v cq=%v tick=%v el=%d hb=%d w=%d trig=%d maxapply=%d smdelay=%d%% msg=%d infl=%d qreq=%d qctl=%d wb=%d", c.nodes, c.slots, mode, sm, c.preVote, c.checkQuorum, c.tick, c.election, c.heartbeat, c.workers, c.trigger,
+		c.maxApplying, c.smDelayPct, c.maxSizePerMsg, c.maxInflight, c.maxQueuedReq, c.maxQueuedCtl, c.writeBatchItems)
 }
 
 // ---------------------------------------------------------------------------
@@ -175,6 +199,7 @@ type c12Inc struct {
 	db    *raftlog.DB
 	dead  bool // guarded by node.cut
 	sms   map[uint64]*c12SM
+	obs   *c12IncObs
 }
 
 type c12Node struct {
@@ -216,6 +241,26 @@ func (nd *c12Node) opDelay(pct int) func() time.Duration {
 	}
 }
 
+// smDelay: bursty state machine: short sleeps with probability smDelayPct and,
+// on the case's designated node, occasional 20-50 ms stalls.
+func (nd *c12Node) smDelay() func() time.Duration {
+	short := nd.opDelay(nd.cfg.smDelayPct)
+	stall := nd.cfg.stallPct > 0 && int(nd.id)-1 == nd.cfg.stallNode
+	return func() time.Duration {
+		if stall {
+			nd.rngMu.Lock()
+			hit := nd.rng.IntN(100) < nd.cfg.stallPct
+			d := time.Duration(20+nd.rng.IntN(31)) * time.Millisecond
+			nd.rngMu.Unlock()
+			if hit {
+				nd.cl.r.Count("apply.long_stalls", 1)
+				return d
+			}
+		}
+		return short()
+	}
+}
+
 // c12OpenMu serialises raftlog.Open because the verif FS provider is global.
 var c12OpenMu sync.Mutex
 
@@ -230,9 +275,10 @@ func (nd *c12Node) openDB() (*raftlog.DB, error) {
 		raftlog.SetVerifFS(nil)
 	}
 	return raftlog.Open(nd.dbPath, raftlog.Options{
-		SnapshotPath:      nd.snapPath,
-		SnapshotChunkSize: nd.cfg.snapChunk,
-		WriteBatchMaxWait: nd.cfg.writeBatchWait,
+		SnapshotPath:       nd.snapPath,
+		SnapshotChunkSize:  nd.cfg.snapChunk,
+		WriteBatchMaxWait:  nd.cfg.writeBatchWait,
+		WriteBatchMaxItems: nd.cfg.writeBatchItems,
 	})
 }
 
@@ -242,6 +288,7 @@ func (nd *c12Node) start(bootstrap bool) bool {
 	cl := nd.cl
 	nd.incNo++
 	inc := &c12Inc{no: nd.incNo, first: bootstrap, sms: map[uint64]*c12SM{}}
+	inc.obs = &c12IncObs{c12Observer: cl.obs, r: cl.r, limit: nd.cfg.maxApplying, outstanding: map[multiraft.SlotID]int{}}
 	ok := true
 	panicked := cl.r.Guard("node-start", map[string]any{"node": uint64(nd.id), "incarnation": inc.no, "cfg": nd.cfg.String()}, func() {
 		db, err := nd.openDB()
@@ -256,12 +303,17 @@ func (nd *c12Node) start(bootstrap bool) bool {
 			TickInterval: nd.cfg.tick,
 			Workers:      nd.cfg.workers,
 			Transport:    &c12Transport{net: cl.net, node: nd, inc: inc},
-			Observer:     cl.obs,
+			Observer:     inc.obs,
 			Raft: multiraft.RaftOptions{
-				ElectionTick:  nd.cfg.election,
-				HeartbeatTick: nd.cfg.heartbeat,
-				PreVote:       nd.cfg.preVote,
-				CheckQuorum:   nd.cfg.checkQuorum,
+				ElectionTick:      nd.cfg.election,
+				HeartbeatTick:     nd.cfg.heartbeat,
+				PreVote:           nd.cfg.preVote,
+				CheckQuorum:       nd.cfg.checkQuorum,
+				MaxSizePerMsg:     nd.cfg.maxSizePerMsg,
+				MaxInflight:       nd.cfg.maxInflight,
+				MaxQueuedRequests: nd.cfg.maxQueuedReq,
+				MaxQueuedControls: nd.cfg.maxQueuedCtl,
+				MaxApplyingTasks:  nd.cfg.maxApplying,
 				LogCompaction: multiraft.LogCompactionConfig{Enabled: true, EnabledSet: true,
 					TriggerEntries: nd.cfg.trigger, CheckInterval: nd.cfg.checkInterval},
 			},
@@ -272,7 +324,7 @@ func (nd *c12Node) start(bootstrap bool) bool {
 		inc.rt = rt
 		for _, slot := range cl.slots {
 			disk := nd.disks[slot]
-			sm := &c12SM{mon: cl.mon, node: nd, inc: inc, slot: slot, log: nd.logs[slot], delay: nd.opDelay(nd.cfg.smDelayPct),
+			sm := &c12SM{mon: cl.mon, node: nd, inc: inc, slot: slot, log: nd.logs[slot], delay: nd.smDelay(),
 				disk: disk, cur: disk.p, startP: disk.p, fresh: true, opening: true,
 				curSet: nd.cfg.smDurable || !nd.unclean || bootstrap}
 			sm.note("incarnation %d opens with durable applied=%d commands=%d unclean=%v", inc.no, disk.p, len(disk.list), nd.unclean)
@@ -369,6 +421,43 @@ func (o *c12Observer) ObserveSlotLeaderChange(_ multiraft.SlotID, from, to multi
 		o.leaderChanges.Add(1)
 	}
 }
+
+// c12IncObs is the per-incarnation observer: leader changes (shared counter)
+// plus the apply pipeline gauges that prove the backlog limit is reached.
+type c12IncObs struct {
+	*c12Observer
+	r     *verifkit.Run
+	limit int
+
+	mu          sync.Mutex
+	outstanding map[multiraft.SlotID]int // accepted, not yet completed apply tasks
+}
+
+func (o *c12IncObs) ObserveSlotApplyQueue(slot multiraft.SlotID, depth int) {
+	o.mu.Lock()
+	o.outstanding[slot]++
+	n := o.outstanding[slot]
+	o.mu.Unlock()
+	o.r.Max("apply.max_queue_depth_at_enqueue", depth)
+	o.r.Max("apply.max_outstanding_tasks", n)
+	if o.limit > 0 && n >= o.limit {
+		o.r.Count("apply.backlog_limit_reached", 1)
+	}
+}
+
+func (o *c12IncObs) ObserveSlotApplyTask(slot multiraft.SlotID, _ time.Duration) {
+	o.mu.Lock()
+	o.outstanding[slot]--
+	o.mu.Unlock()
+}
+
+func (o *c12IncObs) backlog(slot multiraft.SlotID) int {
+	o.mu.Lock()
+	defer o.mu.Unlock()
+	return o.outstanding[slot]
+}
+
+var _ multiraft.ApplyPipelineObserver = (*c12IncObs)(nil)
 
 // ---------------------------------------------------------------------------
 // Cluster.
@@ -615,6 +704,30 @@ func (cl *c12Cluster) runEvent(e c12Event, rng *rand.Rand) string {
 			}
 		}
 		return fmt.Sprintf("crash-%s%d", e.crash, len(victims))
+	case "apply-gate":
+		// Block one Apply on one replica while more proposals commit, then
+		// release: the apply backlog of that slot fills behind the gate.
+		nd := cl.nodes[e.b%len(cl.nodes)]
+		inc := nd.cur.Load()
+		if inc == nil {
+			return "apply-gate(down)"
+		}
+		sm := inc.sms[slot]
+		g := &c12ApplyGate{entered: make(chan struct{}), release: make(chan struct{})}
+		sm.gate.Store(g)
+		wasBurst := cl.burst.Load()
+		cl.burst.Store(true)
+		label := "apply-gate"
+		select {
+		case <-g.entered:
+			time.Sleep(time.Duration(40+e.pct) * time.Millisecond)
+		case <-time.After(400 * time.Millisecond):
+			label = "apply-gate(idle)"
+		}
+		sm.gate.Store(nil)
+		close(g.release)
+		cl.burst.Store(wasBurst)
+		return label
 	case "faults":
 		cl.net.setFaults(e.f)
 		return "faults"
@@ -946,6 +1059,12 @@ func c12RunCase(t *testing.T, r *verifkit.Run, caseIdx int) {
 	r.Count("leader_changes_observed", leaderChanges)
 	r.Max("max_applied_per_case", applied)
 	r.Count("cases", 1)
+	if cfg.maxApplying > 0 && cfg.maxApplying <= 4 {
+		r.Count("cases.max_applying_tasks_le_4", 1)
+	}
+	if cfg.maxApplying > 0 {
+		r.Count(fmt.Sprintf("cases.max_applying_tasks=%d", cfg.maxApplying), 1)
+	}
 
 	mon.mu.Lock()
 	if len(mon.saveErrs) > 0 {
@@ -1013,7 +1132,7 @@ func (cl *c12Cluster) dump() any {
 func TestVerifC12(t *testing.T) {
 	r := verifkit.Start(t, "C12", "main")
 	defer r.Finish()
-	r.SetRule("Each case = one cluster schedule drawn from the case PRNG: 3 (quick) or 3/5 (thorough) multiraft runtimes x 2-4 slots, raftlog/Pebble storage (real tmpfs dir or CrashableMem), random raft options, 3-5 clients proposing unique commands, and 9-18 director events (partition, one-way block, leader isolation, heal, leader transfer, CompactLog, crash-restart clean/kill/power-loss of a minority, fault-level change, burst) over a drop/dup/delay network. Non-trivial = >=1 observed leader change, >=1 snapshot saved or transferred, >=1 crash-restart, >=50 distinct applied commands and the final quiesced comparison was performed; distinct by (configuration, performed event sequence).")
+	r.SetRule("Each case = one cluster schedule drawn from the case PRNG: 3 (quick) or 3/5 (thorough) multiraft runtimes x 2-4 slots, raftlog/Pebble storage (real tmpfs dir or CrashableMem), random raft options, 3-5 clients proposing unique commands, and 9-18 director events (partition, one-way block, leader isolation, heal, leader transfer, CompactLog, crash-restart clean/kill/power-loss of a minority, fault-level change, burst, apply-gate); in ~2/3 of the cases MaxApplyingTasks is 1/2/4/16 with a slow, bursty state machine so the apply backpressure fallback runs over a drop/dup/delay network. Non-trivial = >=1 observed leader change, >=1 snapshot saved or transferred, >=1 crash-restart, >=50 distinct applied commands and the final quiesced comparison was performed; distinct by (configuration, performed event sequence).")
 	r.Assume("A process crash is modelled as an atomic cut of one node: its raftlog Pebble image (CrashClone), its state machine's durable list and its network endpoint are cut under one lock that Storage.Save/MarkApplied, StateMachine.Apply and Transport.Send hold shared; i.e. crashes happen between, not inside, those calls (Pebble batch atomicity itself is trusted).")
 	r.Assume("The recording state machine makes each applied batch durable before Apply returns (production FSM shape: data + applied index in one synced batch). The non-durable variant may be re-applied after a kill (Storage.MarkApplied trails Apply by design); that is counted, not flagged.")
 	r.Assume("Empty and membership entries are not delivered to the state machine; index continuity is checked against the entry kinds the node itself persisted through Storage.Save.")
